@@ -19,10 +19,16 @@ impl HasKey<Public> for V4 {
     type Key = PublicKey;
 
     fn decode(bytes: &[u8]) -> Result<PublicKey, PasetoError> {
+        use curve25519_dalek::traits::IsIdentity;
+
         let key = bytes.try_into().map_err(|_| PasetoError::InvalidKey)?;
-        ed25519_dalek::VerifyingKey::from_bytes(&key)
-            .map(PublicKey)
-            .map_err(|_| PasetoError::InvalidKey)
+        let key = ed25519_dalek::VerifyingKey::from_bytes(&key)
+            .map_err(|_| PasetoError::InvalidKey)?;
+        // anyone can "sign" for the identity element: it is not a public key
+        if key.to_edwards().is_identity() {
+            return Err(PasetoError::InvalidKey);
+        }
+        Ok(PublicKey(key))
     }
     fn encode(key: &PublicKey) -> Box<[u8]> {
         key.0.as_bytes().to_vec().into_boxed_slice()
